@@ -4,6 +4,7 @@ import (
 	"fmt"
 	"go/token"
 	"go/types"
+	"sort"
 	"strings"
 
 	"golang.org/x/tools/go/ssa"
@@ -146,7 +147,9 @@ func checkC15(c *Ctx, r *Report) {
 			r1.Fail(k.fn+": delivery loop", f.Pos(), "no loop over the sinks found", "")
 			continue
 		}
-		h, body := innermostLoop(f, elemBlock)
+		// (the loop may have moved, whole, into a helper the emit function calls under its lock)
+		lf := elemBlock.Parent()
+		h, body := innermostLoop(lf, elemBlock)
 		if h == nil {
 			r1.Fail(k.fn+": delivery loop", f.Pos(), "the sinks are not visited in a loop", "")
 			continue
@@ -163,7 +166,8 @@ func checkC15(c *Ctx, r *Report) {
 			return isSinksList(ia.X)
 		}
 		isEvt := func(v ssa.Value) bool { return isParamVar(c, v, "evt") }
-		res := countIn(f, h, body, isSink, isEvt, 3)
+		var res pathResult
+		asRoot(f, func() { res = countIn(lf, h, body, isSink, isEvt, 3) })
 		r1.Check(res.only(1), k.fn+": every iteration over the sinks sends evt to that sink exactly once", f.Pos(), res.paths, res.String(), "an event is dropped for (or delivered twice to) a subscriber", res.String())
 	}
 	// delivery happens inside the node's critical section: Close (typed: sub.Close, wildcard: removeSink) takes the
@@ -246,6 +250,98 @@ func checkC15(c *Ctx, r *Report) {
 			fl, base := fieldAddrOf(callArgs(ci)[0])
 			return fl != nil && fieldKeyOf(base, fl) == ebP+".emitter.closed"
 		}, false), nil)
+	}
+
+	// the slow-consumer path dereferences its logger: every field a logger reaches the helper from is set, on every
+	// path, before the constructor that allocated its owner returns
+	{
+		ebAll := c.FnsOfPkg(ebP)
+		logFields := map[string]bool{}
+		var addSrc func(v ssa.Value, depth int)
+		addSrc = func(v ssa.Value, depth int) {
+			v = resolveLoad(strip2(v))
+			if fl, base := loadOfField(v); fl != nil {
+				k := fieldKeyOf(base, fl)
+				if logFields[k] || !strings.HasPrefix(k, ebP+".") {
+					return
+				}
+				logFields[k] = true
+				for _, g := range ebAll {
+					for _, in := range findInstrsIn(g, fieldWritePred(k)) {
+						if st, ok := in.(*ssa.Store); ok && depth < 6 {
+							addSrc(st.Val, depth+1)
+						}
+					}
+				}
+				return
+			}
+			p, ok := v.(*ssa.Parameter)
+			if !ok || depth >= 6 {
+				return
+			}
+			h := p.Parent()
+			idx := -1
+			for i, q := range h.Params {
+				if q == p {
+					idx = i
+				}
+			}
+			for _, g := range ebAll {
+				for _, in := range findInstrsIn(g, func(in ssa.Instruction) bool {
+					ci, ok := in.(ssa.CallInstruction)
+					return ok && ci.Common().StaticCallee() == h
+				}) {
+					if a := in.(ssa.CallInstruction).Common().Args; idx >= 0 && idx < len(a) {
+						addSrc(a[idx], depth+1)
+					}
+				}
+			}
+		}
+		for _, g := range ebAll {
+			for _, in := range findInstrsIn(g, callPred(elk)) {
+				asRoot(g, func() { addSrc(callArgs(in.(ssa.CallInstruction))[0], 0) })
+			}
+		}
+		var keys []string
+		for k := range logFields {
+			keys = append(keys, k)
+		}
+		sort.Strings(keys)
+		nAlloc := 0
+		for _, k := range keys {
+			owner := k[:strings.LastIndex(k, ".")]
+			found := false
+			for _, g := range ebAll {
+				for _, in := range findInstrsIn(g, func(in ssa.Instruction) bool {
+					a, ok := in.(*ssa.Alloc)
+					if !ok {
+						return false
+					}
+					return strings.ReplaceAll(types.TypeString(a.Type().Underlying().(*types.Pointer).Elem(), nil), Mod, "") == owner
+				}) {
+					a := in.(*ssa.Alloc)
+					found = true
+					nAlloc++
+					isOurs := func(v ssa.Value) bool { return strip2(v) == ssa.Value(a) }
+					sets := findInstrsIn(g, func(in ssa.Instruction) bool {
+						st, ok := in.(*ssa.Store)
+						if !ok || isNilConst(st.Val) {
+							return false
+						}
+						fl, base := fieldAddrOf(st.Addr)
+						return fl != nil && isOurs(base) && fieldKeyOf(base, fl) == k
+					})
+					isSet := eqEdge(func(v ssa.Value) bool {
+						fl, base := loadOfField(v)
+						return fl != nil && isOurs(base) && fieldKeyOf(base, fl) == k
+					}, isNilConst, false)
+					q := &Cut{Fn: g, From: []ssa.Instruction{a}, Target: isRet, Sep: inSet(sets), EdgeCut: isSet}
+					r1.mustPass(g, fnKey(g)+": the "+k+" of the object allocated here is set before the function returns", q, len(sets))
+				}
+			}
+			r1.Check(found, k+": reaches the slow-consumer helper's logger; its owner's construction site", token.NoPos, 1, "", "", "no allocation of "+owner+" found in the package")
+		}
+		r1.Check(len(keys) >= 2 && nAlloc >= 2, "logger of the slow-consumer path: fields it is read from", token.NoPos, len(keys), strings.Join(keys, ", "), "", "fewer than the two node kinds")
 	}
 
 	// ---- R2 ---------------------------------------------------------------
@@ -635,6 +731,45 @@ func checkC15(c *Ctx, r *Report) {
 		r3.Check(len(locks) == 1 && len(starts) >= 1 && w == "" && okDrain, wM("removeSink")+": a drainer of the sink's channel runs before the write lock is requested", f.Pos(), n+1, "", "a stalled wildcard emit holds the read lock forever: Close deadlocks", w)
 		rem := findInstrs(f, fieldWritePred(wT+".sinks"))
 		r3.Check(len(rem) == 1, wM("removeSink")+": removes the sink", f.Pos(), 1, "", "", "")
+		// what tells a drainer to finish (a close of, or send on, a channel it also receives from, other than the
+		// sink's) is reached only once the write lock has been acquired: until then a stalled emit may hold the
+		// read lock, blocked on the sink
+		var stops []ssa.Instruction
+		for _, in := range findInstrs(f, func(in ssa.Instruction) bool {
+			var ch ssa.Value
+			switch x := in.(type) {
+			case *ssa.Send:
+				ch = x.Chan
+			case ssa.CallInstruction:
+				if calleeKey(x) == "builtin.close" {
+					ch = x.Common().Args[0]
+				}
+			}
+			if ch == nil {
+				return false
+			}
+			sig := resolveLoad(strip2(ch))
+			if isParamVar(c, sig, "ch") || isParamVar(c, ch, "ch") {
+				return false
+			}
+			for _, a := range allAnon(f) {
+				if receivesFrom(c, a, func(v ssa.Value) bool { return resolveLoad(strip2(v)) == sig }, 0) {
+					return true
+				}
+			}
+			return false
+		}) {
+			if _, isDefer := in.(*ssa.Defer); isDefer {
+				stops = append(stops, findInstrs(f, func(in ssa.Instruction) bool { _, ok := in.(*ssa.RunDefers); return ok })...)
+			} else {
+				stops = append(stops, in)
+			}
+		}
+		if len(stops) == 0 {
+			r3.Fail(wM("removeSink")+": the drainer's stop signal", f.Pos(), "no close of / send on a channel the drainer also receives from was found", "")
+		} else {
+			r3.mustPass(f, wM("removeSink")+": the drainer is told to finish only after the write lock was acquired", &Cut{Fn: f, Target: inSet(stops), Sep: inSet(locks)}, len(stops))
+		}
 	}
 
 	// ---- R4 ---------------------------------------------------------------
@@ -851,6 +986,459 @@ func checkC15(c *Ctx, r *Report) {
 			}
 		}
 	}
+
+	// ---- R6 ---------------------------------------------------------------
+	r6 := r.Rule("C15-R6", "E1/E6", 12, "registration: withNode creates a node exactly when none is registered and registers it; a wildcard subscription is added to the wildcard node before Subscribe returns it and removed by its Close; addSink appends and counts; the wildcard fast path returns only with no sinks; Stateful sets the flag; single types are wrapped; nodes are keyed by the element type; comma-ok results are used only where the lookup succeeded")
+	ebAll := c.FnsOfPkg(ebP)
+	if f := r6.need(withNodeK); f != nil {
+		news := findInstrs(f, callPred(ebP+".newNode"))
+		isMiss := func(v ssa.Value) bool {
+			ex, ok := v.(*ssa.Extract)
+			if !ok || ex.Index != 1 {
+				return false
+			}
+			lk, ok := ex.Tuple.(*ssa.Lookup)
+			return ok && lk.CommaOk && isLoadOfField(busT+".nodes")(strip2(lk.X))
+		}
+		r6.guard(f, "create a node", news, "no node is registered for the type", edgeBool(isMiss, false), nil)
+		for _, nw := range news {
+			isReg := func(in ssa.Instruction) bool {
+				mu, ok := in.(*ssa.MapUpdate)
+				return ok && isLoadOfField(busT+".nodes")(strip2(mu.Map)) && resolveLoad(strip2(mu.Value)) == nw.(ssa.Value) && isParamCellLoadOrParam(c, mu.Key, f.Params[1])
+			}
+			r6.mustPass(f, withNodeK+": the node created is registered under the type asked for", &Cut{Fn: f, From: []ssa.Instruction{nw}, Target: isRet, Sep: isReg}, 1)
+		}
+		// the second callback runs (on its own goroutine) exactly when there is one
+		async := f.Params[len(f.Params)-1]
+		isAsync := func(v ssa.Value) bool { return v == ssa.Value(async) || isParamCellLoad(c, v, async) }
+		gos := findInstrs(f, func(in ssa.Instruction) bool { _, ok := in.(*ssa.Go); return ok })
+		r6.guard(f, "start the goroutine of the second callback", gos, "async != nil", edgeNil(isAsync, false), nil)
+		var from []CFGEdge
+		for _, b := range blocksDeep(f) {
+			for si := range b.Succs {
+				if edgeNil(isAsync, false)(b, si) {
+					from = append(from, CFGEdge{b, si})
+				}
+			}
+		}
+		if len(from) == 0 {
+			r6.Fail(withNodeK+": test of the second callback", f.Pos(), "no `async != nil` test found", "")
+		} else {
+			r6.mustPass(f, withNodeK+": a second callback, when given, is started", &Cut{Fn: f, FromEdges: from, Target: isRet, Sep: inSet(gos)}, len(from))
+		}
+	}
+	// wildcard subscriptions: registered where they are made, removed by Close
+	isChOfAlloc := func(v ssa.Value, a *ssa.Alloc) bool {
+		v = resolveLoad(strip2(v))
+		if fl, base := loadOfField(v); fl != nil && fl.Name() == "ch" && strip2(base) == ssa.Value(a) {
+			return true
+		}
+		// ... or the very value stored in a.ch
+		for _, ref := range *a.Referrers() {
+			fa, ok := ref.(*ssa.FieldAddr)
+			if !ok || fieldKeyOf(fa.X, fieldOfFA(fa)) != ebP+".wildcardSub.ch" {
+				continue
+			}
+			for _, r2 := range *fa.Referrers() {
+				if st, ok := r2.(*ssa.Store); ok && st.Addr == ssa.Value(fa) && resolveLoad(strip2(st.Val)) == v {
+					return true
+				}
+			}
+		}
+		return false
+	}
+	nW := 0
+	for _, g := range ebAll {
+		for _, in := range findInstrsIn(g, func(in ssa.Instruction) bool {
+			a, ok := in.(*ssa.Alloc)
+			return ok && strings.ReplaceAll(types.TypeString(a.Type().Underlying().(*types.Pointer).Elem(), nil), Mod, "") == ebP+".wildcardSub"
+		}) {
+			a := in.(*ssa.Alloc)
+			nW++
+			isAdd := func(in ssa.Instruction) bool {
+				if !isCallTo(in, wM("addSink")) {
+					return false
+				}
+				sk, ok := resolveLoad(strip2(callArgs(in.(ssa.CallInstruction))[1])).(*ssa.Alloc)
+				if !ok {
+					return false
+				}
+				for _, ref := range *sk.Referrers() {
+					fa, ok := ref.(*ssa.FieldAddr)
+					if !ok || fieldKeyOf(fa.X, fieldOfFA(fa)) != ebP+".namedSink.ch" {
+						continue
+					}
+					for _, r2 := range *fa.Referrers() {
+						if st, ok := r2.(*ssa.Store); ok && st.Addr == ssa.Value(fa) && isChOfAlloc(st.Val, a) {
+							return true
+						}
+					}
+				}
+				return false
+			}
+			asRoot(g, func() {
+				r6.mustPass(g, fnKey(g)+": a wildcard subscription is added to the wildcard node (a sink on its own channel) before it is returned", &Cut{Fn: g, From: []ssa.Instruction{a}, Target: isRet, Sep: isAdd}, 1)
+			})
+		}
+	}
+	r6.Check(nW >= 1, "wildcard subscription: construction site", token.NoPos, nW, "", "", "no allocation of wildcardSub found")
+	// which kind of subscription is made is decided by `evtTypes == event.WildcardSubscription`
+	if f := r6.need(busM("Subscribe")); f != nil {
+		evt := f.Params[1]
+		isEvt := func(v ssa.Value) bool {
+			v = resolveLoad(strip2(v))
+			return v == ssa.Value(evt) || isParamCellLoad(c, v, evt)
+		}
+		isWild := func(v ssa.Value) bool {
+			return derivesFrom(v, func(x ssa.Value) bool {
+				g, ok := x.(*ssa.Global)
+				return ok && g.Name() == "WildcardSubscription" && g.Pkg.Pkg.Path() == Mod+"core/event"
+			})
+		}
+		isAllocOf := func(tn string) func(ssa.Instruction) bool {
+			return func(in ssa.Instruction) bool {
+				a, ok := in.(*ssa.Alloc)
+				return ok && strings.ReplaceAll(types.TypeString(a.Type().Underlying().(*types.Pointer).Elem(), nil), Mod, "") == ebP+"."+tn
+			}
+		}
+		for _, k := range []struct {
+			tn   string
+			wild bool
+		}{{"wildcardSub", true}, {"sub", false}} {
+			if w, _ := (&Cut{Fn: f, Target: isAllocOf(k.tn)}).Run(c); w == "" {
+				r6.Fail(busM("Subscribe")+": construction of a "+k.tn, f.Pos(), "not reached from Subscribe", "")
+				continue
+			}
+			w, n := (&Cut{Fn: f, Target: isAllocOf(k.tn), EdgeCut: eqEdge(isEvt, isWild, k.wild)}).Run(c)
+			r6.Check(w == "", fmt.Sprintf("%s: a %s is made only when evtTypes == WildcardSubscription is %v", busM("Subscribe"), k.tn, k.wild), f.Pos(), n+1, "", "wildcard subscribers are registered as typed ones (or the reverse) and receive nothing", w)
+		}
+	}
+	// the emitter handed out is bound to the node it was counted on, the wildcard node and the element type
+	if f := r6.need(busM("Emitter")); f != nil {
+		nE := 0
+		for _, g := range ebAll {
+			for _, in := range findInstrsIn(g, func(in ssa.Instruction) bool {
+				a, ok := in.(*ssa.Alloc)
+				return ok && strings.ReplaceAll(types.TypeString(a.Type().Underlying().(*types.Pointer).Elem(), nil), Mod, "") == ebP+".emitter"
+			}) {
+				a := in.(*ssa.Alloc)
+				nE++
+				fieldVal := func(name string) ssa.Value {
+					for _, ref := range *a.Referrers() {
+						fa, ok := ref.(*ssa.FieldAddr)
+						if !ok || fieldOfFA(fa).Name() != name {
+							continue
+						}
+						for _, r2 := range *fa.Referrers() {
+							if st, ok := r2.(*ssa.Store); ok && st.Addr == ssa.Value(fa) {
+								return st.Val
+							}
+						}
+					}
+					return nil
+				}
+				nv := fieldVal("n")
+				okN := nv != nil && len(g.Params) > 0
+				if okN {
+					_, isP := resolveLoad(strip2(nv)).(*ssa.Parameter)
+					okN = isP
+				}
+				wv := fieldVal("w")
+				okW := wv != nil && isLoadOfField(busT+".wildcard")(resolveLoad(strip2(wv)))
+				r6.Check(okN, busM("Emitter")+": emitter.n is the node the callback was handed", instrPos(in), 1, "", "events go to a node nobody subscribed to", "")
+				r6.Check(okW, busM("Emitter")+": emitter.w is the bus's wildcard node", instrPos(in), 1, "", "wildcard subscribers miss this emitter's events", "")
+				// ... and it reaches the result on every path of the function that makes it
+				isOut := func(in ssa.Instruction) bool {
+					st, ok := in.(*ssa.Store)
+					return ok && derivesFrom(st.Val, func(v ssa.Value) bool { return v == ssa.Value(a) })
+				}
+				w, n := (&Cut{Fn: g, From: []ssa.Instruction{a}, Sep: isOut, Target: func(in ssa.Instruction) bool {
+					ret, ok := in.(*ssa.Return)
+					return ok && !(len(ret.Results) > 0 && derivesFrom(ret.Results[0], func(v ssa.Value) bool { return v == ssa.Value(a) }))
+				}}).Run(c)
+				r6.Check(w == "", busM("Emitter")+": the emitter made is the one handed out", instrPos(in), n+1, "", "Emitter returns (nil, nil): the caller's first Emit panics", w)
+			}
+		}
+		r6.Check(nE == 1, busM("Emitter")+": one construction site", f.Pos(), nE, "", "", fmt.Sprint(nE))
+	}
+	if f := r6.need("(*" + ebP + ".wildcardSub).Close"); f != nil {
+		dos := findInstrs(f, callPred("(*sync.Once).Do"))
+		r6.mustPass(f, "(*wildcardSub).Close: every return passes closeOnce.Do", &Cut{Fn: f, Target: isRet, Sep: inSet(dos)}, len(dos))
+		okRem := len(dos) >= 1
+		for _, do := range dos {
+			g := installedFunc(callArgs(do.(ssa.CallInstruction))[1])
+			if g == nil || g.Blocks == nil {
+				okRem = false
+				continue
+			}
+			rem := findInstrs(g, func(in ssa.Instruction) bool {
+				if !isCallTo(in, wM("removeSink")) {
+					return false
+				}
+				fl, base := loadOfField(resolveLoad(strip2(callArgs(in.(ssa.CallInstruction))[1])))
+				return fl != nil && fieldKeyOf(base, fl) == ebP+".wildcardSub.ch"
+			})
+			if w, _ := (&Cut{Fn: g, Target: isRet, Sep: inSet(rem)}).Run(c); w != "" || len(rem) == 0 {
+				okRem = false
+			}
+		}
+		r6.Check(okRem, "(*wildcardSub).Close: the once-body removes the sink on the subscription's channel on every path", f.Pos(), 2, "", "a closed wildcard subscription stays registered: the next emit blocks on a channel nobody reads, forever", "")
+	}
+	if f := r6.need(wM("addSink")); f != nil {
+		sink := f.Params[len(f.Params)-1]
+		apps := findInstrs(f, func(in ssa.Instruction) bool {
+			st, ok := in.(*ssa.Store)
+			if !ok || !isFieldWrite(in, wT+".sinks") {
+				return false
+			}
+			call, ok := resolveLoad(strip2(st.Val)).(*ssa.Call)
+			if !ok || calleeKey(call) != "builtin.append" || !isLoadOfField(wT+".sinks")(strip2(call.Call.Args[0])) {
+				return false
+			}
+			return derivesFrom(call.Call.Args[1], func(v ssa.Value) bool { return v == ssa.Value(sink) || isParamCellLoad(c, v, sink) })
+		})
+		incs := findInstrs(f, func(in ssa.Instruction) bool {
+			if !isCallTo(in, "(*sync/atomic.Int32).Add", "(*sync/atomic.Int64).Add") {
+				return false
+			}
+			a := callArgs(in.(ssa.CallInstruction))
+			k, ok := constInt(a[1])
+			return ok && k == 1 && isLoadOfFieldAddr(a[0], wT+".nSinks")
+		})
+		r6.mustPass(f, wM("addSink")+": the sink is appended to the list", &Cut{Fn: f, Target: isRet, Sep: inSet(apps)}, len(apps))
+		r6.mustPass(f, wM("addSink")+": the sink is counted (the emit fast path reads the count)", &Cut{Fn: f, Target: isRet, Sep: inSet(incs)}, len(incs))
+	}
+	if f := r6.need(wM("emit")); f != nil {
+		rl := findInstrs(f, callPred("(*sync.RWMutex).RLock"))
+		isCount := func(v ssa.Value) bool {
+			ci := isResultOfCall(v, 0, "(*sync/atomic.Int32).Load", "(*sync/atomic.Int64).Load")
+			return ci != nil && isLoadOfFieldAddr(callArgs(ci)[0], wT+".nSinks")
+		}
+		none := anyEdge(eqEdge(isCount, isZero, true), edgeExcl(isCount, isZero, ordGT))
+		w, n := (&Cut{Fn: f, Target: isRet, Sep: inSet(rl), EdgeCut: none}).Run(c)
+		r6.Check(w == "" && len(rl) >= 1, wM("emit")+": returns without entering the delivery section only when no sink is counted", f.Pos(), n+1, "", "wildcard subscribers miss events", w)
+	}
+	if f := r6.need(ebP + ".Stateful"); f != nil {
+		sets := findInstrs(f, func(in ssa.Instruction) bool {
+			st, ok := in.(*ssa.Store)
+			if !ok || !isFieldWrite(in, ebP+".emitterSettings.makeStateful") {
+				return false
+			}
+			b, isC := constBool(st.Val)
+			return isC && b
+		})
+		var okRets []ssa.Instruction
+		for _, ret := range returnsOf(f) {
+			if isNilConst(retVal(ret, 0)) {
+				okRets = append(okRets, ret)
+			}
+		}
+		r6.mustPass(f, "Stateful: makeStateful = true on every accepting path", &Cut{Fn: f, Target: inSet(okRets), Sep: inSet(sets)}, len(sets))
+		all := findInstrs(f, fieldWritePred(ebP+".emitterSettings.makeStateful"))
+		r6.Check(len(all) == len(sets) && len(sets) >= 1, "Stateful: the flag is only ever set", f.Pos(), len(all), "", "", "")
+	}
+	// a single type is wrapped into a one-element list: the asserted list is never used alone
+	if f := r6.need(busM("Subscribe")); f != nil {
+		evt := f.Params[1]
+		isEvt := func(v ssa.Value) bool { return v == ssa.Value(evt) || isParamCellLoad(c, v, evt) }
+		nTA := 0
+		for _, in := range findInstrs(f, func(in ssa.Instruction) bool {
+			ta, ok := in.(*ssa.TypeAssert)
+			if !ok || !ta.CommaOk || !isEvt(resolveLoad(strip2(ta.X))) {
+				return false
+			}
+			_, isSl := ta.AssertedType.Underlying().(*types.Slice)
+			return isSl
+		}) {
+			nTA++
+			okUse := true
+			why := ""
+			nUse := 0
+			for _, ref := range *in.(*ssa.TypeAssert).Referrers() {
+				ex, ok := ref.(*ssa.Extract)
+				if !ok || ex.Index != 0 {
+					continue
+				}
+				for _, r2 := range *ex.Referrers() {
+					if _, isDbg := r2.(*ssa.DebugRef); isDbg {
+						continue
+					}
+					if st, isSt := r2.(*ssa.Store); isSt {
+						// (the cell of a variable closures only read: its loads here were replaced by values, lift.go)
+						if al, isAl := st.Addr.(*ssa.Alloc); isAl && liftedCells[al] {
+							continue
+						}
+					}
+					nUse++
+					phi, isPhi := r2.(*ssa.Phi)
+					if !isPhi {
+						okUse = false
+						why = "used directly: " + r2.String()
+						continue
+					}
+					hasWrap := false
+					for _, e := range phi.Edges {
+						if e == ssa.Value(ex) {
+							continue
+						}
+						if derivesFrom(e, func(v ssa.Value) bool {
+							a, isA := v.(*ssa.Alloc)
+							if !isA {
+								return false
+							}
+							holds := false
+							for _, ar := range *a.Referrers() {
+								ia, ok := ar.(*ssa.IndexAddr)
+								if !ok {
+									continue
+								}
+								for _, sr := range *ia.Referrers() {
+									if st, ok := sr.(*ssa.Store); ok && st.Addr == ssa.Value(ia) && isEvt(resolveLoad(strip2(st.Val))) {
+										holds = true
+									}
+								}
+							}
+							return holds
+						}) {
+							hasWrap = true
+						}
+					}
+					if !hasWrap {
+						okUse = false
+						why = "no [evtTypes] alternative"
+						continue
+					}
+					// the asserted list arrives over the ok edge only
+					tup := in.(*ssa.TypeAssert)
+					isOk := func(v ssa.Value) bool {
+						e2, isEx := resolveLoad(strip2(v)).(*ssa.Extract)
+						return isEx && e2.Index == 1 && e2.Tuple == ssa.Value(tup)
+					}
+					es := phiEdgesWhere(phi, func(v ssa.Value) bool { return v == ssa.Value(ex) })
+					if w, _ := (&Cut{Fn: phi.Parent(), TargetEdge: edgeSet(es), EdgeCut: edgeBool(isOk, true)}).Run(c); w != "" {
+						okUse = false
+						why = "asserted list used without ok: " + w
+					}
+					es2 := phiEdgesWhere(phi, func(v ssa.Value) bool { return v != ssa.Value(ex) })
+					if w, _ := (&Cut{Fn: phi.Parent(), From: []ssa.Instruction{tup}, TargetEdge: edgeSet(es2), EdgeCut: edgeBool(isOk, false)}).Run(c); w != "" {
+						okUse = false
+						why = "wrapped although the assertion succeeded: " + w
+					}
+				}
+			}
+			r6.Check(okUse && nUse >= 1, busM("Subscribe")+": the list of types is the asserted []any or, failing that, [evtTypes]", instrPos(in), nUse+1, "", "a subscription to a single type registers nowhere and never receives an event", why)
+		}
+		r6.Check(nTA == 1, busM("Subscribe")+": one []any assertion of evtTypes", f.Pos(), nTA, "", "", fmt.Sprint(nTA))
+	}
+	// nodes are keyed by the element type on both sides
+	for _, k := range []string{busM("Subscribe"), busM("Emitter")} {
+		f := r6.need(k)
+		if f == nil {
+			continue
+		}
+		calls := callsIn(f, withNodeK)
+		okElem := len(calls) >= 1
+		for _, call := range calls {
+			enterScan(f)
+			ci, isCall := resolveLoad(strip2(callArgs(call)[1])).(*ssa.Call)
+			if !isCall || !ci.Call.IsInvoke() || ci.Call.Method.Name() != "Elem" || !derivesFrom(ci.Call.Value, func(v ssa.Value) bool { return isResultOfCall(v, 0, "reflect.TypeOf") != nil }) {
+				okElem = false
+			}
+		}
+		r6.Check(okElem, k+": the node is looked up under reflect.TypeOf(x).Elem()", f.Pos(), len(calls), "", "emitters and subscribers of one type meet at different nodes: nothing is delivered", "")
+	}
+	commaOkDiscipline(c, r6, ebAll, busT+".nodes")
+}
+
+// fieldOfFA: the field a FieldAddr selects.
+func fieldOfFA(fa *ssa.FieldAddr) *types.Var {
+	t := fa.X.Type().Underlying().(*types.Pointer).Elem().Underlying().(*types.Struct)
+	return t.Field(fa.Field)
+}
+
+func isParamCellLoadOrParam(c *Ctx, v ssa.Value, p *ssa.Parameter) bool {
+	v = resolveLoad(strip2(v))
+	return v == ssa.Value(p) || isParamCellLoad(c, v, p)
+}
+
+// commaOkDiscipline: where a function tests the ok of `v, ok := m[k]` / `v, ok := x.(*T)`, every dereference of v
+// (field access, load, method call on a pointer) lies behind the ok edge or a nil test of v. A contradiction rule in
+// the sense of Engler et al.: the function itself says the lookup can fail.
+func commaOkDiscipline(c *Ctx, ru *Rule, fns []*ssa.Function, strictMaps ...string) {
+	n := 0
+	for _, f := range fns {
+		if f.Blocks == nil {
+			continue
+		}
+		for _, b := range f.Blocks {
+			for _, in := range b.Instrs {
+				ex, ok := in.(*ssa.Extract)
+				if !ok || ex.Index != 0 {
+					continue
+				}
+				strict := false
+				switch t := ex.Tuple.(type) {
+				case *ssa.Lookup:
+					if !t.CommaOk {
+						continue
+					}
+					// maps whose entries come and go concurrently (named by the caller): a miss is always possible, whether
+					// or not this function tests for it
+					for _, k := range strictMaps {
+						if isLoadOfField(k)(strip2(t.X)) {
+							strict = true
+						}
+					}
+				case *ssa.TypeAssert:
+					if !t.CommaOk {
+						continue
+					}
+				default:
+					continue
+				}
+				if _, isPtr := ex.Type().Underlying().(*types.Pointer); !isPtr {
+					continue
+				}
+				// the ok of the same tuple, tested somewhere
+				var okv ssa.Value
+				for _, ref := range *ex.Tuple.Referrers() {
+					if e2, isEx := ref.(*ssa.Extract); isEx && e2.Index == 1 {
+						okv = e2
+					}
+				}
+				if !strict && (okv == nil || len(*okv.Referrers()) == 0) {
+					continue
+				}
+				var derefs []ssa.Instruction
+				for _, ref := range *ex.Referrers() {
+					switch x := ref.(type) {
+					case *ssa.FieldAddr:
+						if x.X == ssa.Value(ex) {
+							derefs = append(derefs, x)
+						}
+					case *ssa.UnOp:
+						if x.Op == token.MUL && x.X == ssa.Value(ex) {
+							derefs = append(derefs, x)
+						}
+					case *ssa.Call:
+						if !x.Call.IsInvoke() && len(x.Call.Args) > 0 && x.Call.Args[0] == ssa.Value(ex) && x.Call.Signature().Recv() != nil {
+							derefs = append(derefs, x)
+						}
+					}
+				}
+				if len(derefs) == 0 {
+					continue
+				}
+				found := anyEdge(edgeBool(func(v ssa.Value) bool { return okv != nil && v == okv }, true), edgeNil(func(v ssa.Value) bool { return v == ssa.Value(ex) }, false))
+				for _, d := range derefs {
+					n++
+					w, k := (&Cut{Fn: f, Target: isInstr(d), EdgeCut: found}).Run(c)
+					ru.Check(w == "", fnKey(f)+": the result of the comma-ok lookup at line "+fmt.Sprint(c.Prog.Fset.Position(ex.Tuple.Pos()).Line)+" is dereferenced only where it succeeded", instrPos(d), k+1, "", "nil dereference when the entry is absent (a concurrent close already dropped it)", w)
+				}
+			}
+		}
+	}
+	ru.OK("comma-ok discipline: dereference sites examined", token.NoPos, n, "")
 }
 
 func isFreeVarOrParam(v ssa.Value, name string) bool {
